@@ -8,7 +8,7 @@ import (
 	"go.starlark.net/starlark"
 )
 
-func run(src string) {
+func runSrc(src string) {
 	defer func() {
 		if r := recover(); r != nil {
 			fmt.Println("   PANIC:", r)
@@ -30,60 +30,17 @@ All = f3.All
 P2 = f2.P2
 `
 	for _, s := range []string{
-		`p = P2(); print(p, p.oi, p.os, p.ob, p.oe, p.od, p.obl, p.ou, p.oz, p.g, p.rg, p.plain_e, p.of)`,
-		`p = P2(); p.g = {"gx": 3}; print(p); print(proto.marshal_text(p)); p.req=1; print(proto.marshal(p))`,
-		`p = P2(); print(proto.marshal(p))`,
-		`p = P2(req=1); proto.set_field(p, f2.ext_i32, 5); print(p, proto.get_field(p, f2.ext_i32)); proto.set_field(p, f2.ext_ru, [1,2]); print(p)`,
-		`p = P2(req=1); proto.set_field(p, f2.ext_m, {"req": 2}); print(p, proto.marshal_text(p))`,
-		`p = P2(req=1); proto.set_field(p, f2.ext_e, 7); print(p)`,
-		`p = P2(req=1); proto.set_field(p, f2.ext_b, "abc"); print(p)`,
-		`p = P2(req=1); proto.set_field(p, f2.ext_s, b"abc"); print(p)`,
-		`p = P2(req=1); print(proto.get_field(p, f2.ext_ru), proto.get_field(p, f2.ext_m), proto.get_field(p, f2.ext_s))`,
-		`p = P2(req=1); p.rg = [{"rx": 1}, {}]; print(p, proto.marshal_text(p))`,
-		`p = P2(req=1); p.oe = 3; print(p)`,
-		`p = P2(req=1, oi=0, os=""); print(p, proto.has(p, "oi"), proto.has(p, "os")); p.oi = None; print(p, p.oi)`,
-		`m = All(f_string="é"); m.f_string = b"ab"; print(m)`,
-		`m = All(); m.f_float = 1e39; print(m.f_float); m.f_float = 0.1; print(m.f_float); m.f_double = 1 << 2000; print(m.f_double); m.f_float = 1<<200; print(m.f_float)`,
-		`m = All(); m.o_int32 = 0; print(m, proto.has(m, "o_int32")); m.o_int32 = None; print(m)`,
-		`m = All(); m.mk_bool = {True: 1}; m.mk_int64 = {1<<62: 2, -5: 3}; m.mk_uint64 = {(1<<64)-1: 2}; print(m, proto.marshal_text(m))`,
-		`m = All(); m.mk_bool = {1: 1}`,
-		`m = All(f_enum=5); print(m.f_enum, m.f_enum.number, m.f_enum.name); m.f_enum = f3.Other.Z; print(m)`,
-		`m = All(f_enum="BIG"); print(m, proto.marshal_text(m)); m.f_enum = f3.Color("NEG"); print(m); m.f_enum = 3`,
-		`m = All(r_int32=[1,2]); m.r_int32[5] = 1`,
-		`m = All(r_int32=[1,2]); m.r_int32[-1] = 7; print(m); m.r_int32.extend([1])`,
-		`m = All(r_int32=[1,2]); m.r_int32 += [1]`,
-		`m = All(r_int32=[1,2]); m.r_int32.insert(0, 1)`,
-		`m = All(r_msg=[{}, All(f_int32=1)]); print(m); m.r_msg[0].f_int32 = 5; print(m); x = m.r_msg[0]; x.f_bool = True; print(m)`,
-		`m = All(mv_msg={"a": {}}); m.mv_msg["a"].f_int32 = 5; print(m)`,
-		`m = All(f_string="\x80abc"); print(m)`,
-		`m = All(f_bytes="abc", r_bytes=[b"x", "y"]); print(m, proto.marshal_text(m))`,
-		`m = All(f_msg = All()); print(m, proto.has(m, "f_msg"), proto.marshal(m)); m2 = proto.unmarshal(All, proto.marshal(m)); print(m2, proto.has(m2, "f_msg"))`,
-		`m = All(f_float = float("nan"), f_double=-0.0); print(m, proto.marshal_text(m)); print(proto.unmarshal_text(All, proto.marshal_text(m)))`,
-		`m = All(mv_int32 = {"a": 1}); m.mv_int32 = {"b": 2, "c": "x"}`,
-		`m = All(mv_int32 = {"a": 1}); v = m.mv_int32; m.mv_int32 = {"b": 2}; print(v, m); v["z"] = 9; print(v, m)`,
-		`m = All(r_int32 = [1]); v = m.r_int32; m.r_int32 = [2, 3]; print(v, m); v.append(9); print(v, m); m.r_int32 = None; v.append(10); print(v, m)`,
-		`m = All(); m.f_msg = m; print("cyc set")`,
-		`m = All(f_int32=True)`,
-		`m = All(f_int32=1.0)`,
-		`m = All(f_bool=1)`,
-		`m = All(f_msg=f3.Leaf())`,
-		`m = All(f_leaf={"x": 1, "nope": 2})`,
-		`m = All(f_leaf={"x": 1, 2: 2})`,
-		`m = All(nope=1)`,
-		`m = All(f_int32=1); m.nope = 1`,
-		`m = All(f_int32=1); proto.set_field(m, f3.Leaf.x, 1)`,
-		`m = All(f_int32=1); proto.set_field(m, "f_int32", 1)`,
-		`m = All(f_int32=1); proto.set_field(m, All.f_int32, None); print(m); proto.set_field(m, All.r_int32, (1,2)); print(m); proto.set_field(m, All.mv_bool, {"a": True}); print(m)`,
-		`m = All(r_enum=["RED", 1, f3.Color.BIG]); print(m, list(m.r_enum), proto.marshal_text(m))`,
-		`m = All(mv_enum={"a": "NEG"}); print(m, m.mv_enum["a"], proto.marshal_text(m))`,
-		`m = All(r_string=["a"]); 
-for x in m.r_string:
-    m.r_string.append("b")
-    if len(m.r_string) > 5: break
-print(m)`,
-		`m = All(f_msg={"f_int32": 1}); s = m.f_msg; s.freeze() if hasattr(s, "freeze") else None; print(dir(s)[:3])`,
+		`p = P2(req=1); proto.set_field(p, f2.ext_i32, 5); t = proto.marshal_text(p); print(t); print(proto.unmarshal_text(P2, t))`,
+		`p = P2(req=1); proto.set_field(p, f2.ext_i32, 5); t = proto.marshal(p); q = proto.unmarshal(P2, t); print(q, proto.has(q, f2.ext_i32), proto.marshal(q) == t)`,
+		`p = P2(req=1); proto.set_field(p, f2.ext_i32, None)`,
+		`p = P2(req=1); proto.set_field(p, f2.ext_m, None)`,
+		`p = P2(req=1); proto.set_field(p, f2.ext_ru, None)`,
+		`p = P2(req=1); proto.set_field(p, f2.ext_ru, [])`,
+		`m = All(mk_string={"a": 1}); print(m.mk_string[b"a"])`,
+		`m = All(mk_string={"a": 1}); print(b"a" in m.mk_string)`,
+		`m = All(mk_string={"a": 1}); print(m.mk_string.get(b"a"))`,
 	} {
 		fmt.Println(">>", s)
-		run(pre + s)
+		runSrc(pre + s)
 	}
 }
